@@ -49,7 +49,9 @@ fn subscript(t: &mut Tape, bound: i16) -> E {
         3 => lit(bound as i64),
         4 => lit(0),
         5 if bound > 0 => lit(t.range(0, bound.min(12) as i64)),
-        6 => E::Lit("0.9".into()),
+        6 => E::Lit(t.pick(&["0.9", "0.9", "0.99999999#"]).to_string()),
+        // a fraction between -1 and 0 floors to -1: out of range, not element 0
+        7 => E::Neg(Box::new(E::Lit(t.pick(&["0.5", "0.25#", "0.99"]).to_string()))),
         _ => lit(t.range(0, (bound.min(5)) as i64)),
     }
 }
